@@ -941,6 +941,11 @@ def observe_mixed(job, only=None):
                     viol.append(Violation(PROP, "exception", case, dict(at, iterate="n/a", **common.exc_info(e)),
                                           f"{type(e).__name__}: {str(e)[:120]}", replay=rp))
                     continue
+                if not (np.array_equal(x0, xq) and np.array_equal(b, bq)):
+                    viol.append(Violation(PROP, "input_mutated", case, dict(at, iterate="n/a"),
+                                          "the solver overwrote the caller's x0 / b array", replay=rp))
+                    x0 = xq.astype(_NPX[xdt]) if xdt == "c128" else xq.real.astype(_NPX[xdt])
+                    b = bq.astype(_NPX[bdt])
                 scale = max(exp["rho2_0"], float(np.linalg.norm(bq) ** 2), 1e-30)
                 found, it, _ = judge(x, A.astype(np.complex128), bq.astype(np.complex128), xq, exp, scale)
                 for clause, detail in found:
@@ -962,9 +967,10 @@ def observe_warm(job, only=None):
     anorm = float(np.linalg.norm(A, 2))
     bn = float(np.linalg.norm(np.array(bint, dtype=float)))
     floor = float(np.finfo(np.float64).eps) * (anorm * float(np.linalg.norm(x0)) + bn) / rho0
+    assert [int(t) for t in x0] == list(x0int)
     for bdt in ("f32", "f64"):
         b = np.array(bint, dtype=_NPX[bdt])
-        assert [int(t) for t in b] == list(bint) and [int(t) for t in x0] == list(x0int)
+        assert [int(t) for t in b] == list(bint)
         unit = float(np.finfo(_NPX[bdt]).eps) * (job["cond"] + 1.0) + floor
         for api, shape in (("gmres", "as_b"), ("inv", "column"), ("inv", "vector")):
             for m in range(1, n + 3):
@@ -982,6 +988,11 @@ def observe_warm(job, only=None):
                     viol.append(Violation(PROP, "exception", case, dict(at, iterate="n/a", **common.exc_info(e)),
                                           f"{type(e).__name__}: {str(e)[:120]}", replay=rp))
                     continue
+                if [int(t) for t in x0] != list(x0int):
+                    x = np.array(x, copy=True)
+                    viol.append(Violation(PROP, "input_mutated", case, dict(at, iterate="n/a"),
+                                          "the solver overwrote the caller's x0 array", replay=rp))
+                    x0 = np.array(x0int, dtype=np.float64)
                 if x.shape != (n, ) or not np.all(np.isfinite(x)):
                     viol.append(Violation(PROP, "shape" if x.shape != (n, ) else "nonfinite", case, dict(at, iterate="n/a"),
                                           f"solution shape {x.shape} / non-finite", replay=rp))
